@@ -661,7 +661,12 @@ func finish(ck *Check, tier string, seed uint64, agg *Agg, wall time.Duration) i
 	}
 	os.MkdirAll(filepath.Join(verifRoot, "evidence"), 0o755)
 	b, _ := json.MarshalIndent(ev, "", " ")
-	os.WriteFile(filepath.Join(verifRoot, "evidence", ck.ID+".json"), b, 0o644)
+	evName := ck.ID + ".json"
+	if os.Getenv("VERIF_ONLY") != "" {
+		// a run restricted to selected cases is not the registered check: keep its record apart
+		evName = ck.ID + ".partial.json"
+	}
+	os.WriteFile(filepath.Join(verifRoot, "evidence", evName), b, 0o644)
 
 	fmt.Printf("%s tier=%s seed=%d: %d cases (%d held, %d violated, %d inconclusive), %d distinct non-trivial, %.1fs\n",
 		ck.ID, tier, seed, agg.Evaluations, agg.Held, agg.Violated, agg.Inconclusive, distinct, wall.Seconds())
